@@ -293,6 +293,12 @@ def check_C15(tier, seed):
               inputs=[cps(x) for x in ["a = #c# b", "a #x# = b", "a=#c##d#b", "a , b ,#c# c", "a,#c#b,", "( a = b ) c", "(#x#a #y# = #z# b #w#)#v# c #u# a", "(a,b, c) a b", "( a , #c# b )",
                                         "a(a=b)", "a (a=b)", "(a=b)(b,c,)", " ( a = b ) #e# ( c , ) ", "(a=#c#b)#d#(#e#a,)", "#c#(a=b)"]])
     others.append(tk)
+    # the known WHITESPACE/COMMENT finding is C01 / C02's business: leave out the grammars on which it can show, and skip rules as entries
+    import tracechk, re as _re
+    others = [g for g in others if tracechk.eligible(g)]
+    for g in others:
+        if not g.get("entries"):
+            g["entries"] = [n for n in _re.findall(r"(?m)^\s*(\w+)\s*=", g["text"]) if n not in ("WHITESPACE", "COMMENT")]
     grams = [dy] + others
     path, corpus = peg.make_corpus(grams, "c15")
     for g, c in zip(grams, corpus):
@@ -300,6 +306,14 @@ def check_C15(tier, seed):
             g["tree_rules"] = [n for n, k in c["kinds"].items() if k in ("normal", "compound", "nonatomic")]
             g["pair_rules"] = [n for n, k in c["kinds"].items() if k == "atomic"]
     rows = props.run_generic(ctx, "c15", grams, "sT", lambda rec, job, obs, gram: [], with_pest=False)
+    # counted repetitions of a rule that may match empty, compiled with pest_optimizer = false (RepeatMinMax nodes; no skip rules, so
+    # the known raw-AST finding cannot show): every iteration is a token, model on the source AST
+    tkr = dict(id="tk1", text="\n".join(["num = { '0'..'1'* }", 'exact = { num{3} }', 'most = { num{,2} ~ "!" }', 'betw = { (num ~ ","?){1,3} }', 'cm = ${ num{2} ~ exact? }']),
+               alphabet=cps("01,!"), maxlen=3 if tier == "quick" else 4, opts={"pest_optimizer": False}, entries=["exact", "most", "betw", "cm"],
+               inputs=[cps(x) for x in ["12", "0,1,", "01,1,0", ",,", "10!", "!", "0101", ""]])
+    tkr["tree_rules"] = ["exact", "most", "betw", "cm", "num"]
+    tkr["pair_rules"] = []
+    rows += props.run_generic(ctx, "c15s", [tkr], "sT", lambda rec, job, obs, gram: [], with_pest=False, ast="src")
     byw = {tuple(r["w"]): r for r in recs}
     for rec, job, obs, gram in rows:
         if not rec["ok"]:
@@ -464,7 +478,7 @@ def check_C19(tier, seed):
     for npush in range(0, 4):
         for sep in ("", " "):
             pre = sep.join(["a"] * npush) + sep + ";"
-            for tail in all_strings(cps("a "), 4 if tier == "quick" else 6) + [cps(x) for x in ["b", "bc", "bcb", "bcbc", "bcbcbc", "b c", "bb", "bca", "ba", "bc bc", "bcba"]]:
+            for tail in all_strings(cps("a "), 4 if tier == "quick" else 6) + [cps(x) for x in ["b", "bc", "bcb", "bcbc", "bcbcbc", "b c", "bb", "bca", "ba", "bc bc", "bcba", "c", "cc", "ca", "c c", "ccc", "cb", "c a"]]:
                 stacky.append(cps(pre) + tail)
                 stacky.append(cps(pre + sep) + tail)
     # one corpus entry per input class, sharing the rules
@@ -754,6 +768,8 @@ def check_C17(tier, seed):
     ctx = Ctx("C17", tier, seed)
     grams = arityfam.fam_arity(tier)
     rows = props.run_generic(ctx, "c17", grams, "snX", lambda rec, job, obs, gram: [], emit="dv", with_pest=False)
+    # RepeatMinMax / RepeatMin<_, 1> exist only on the raw-AST path: same accessors, model on the source AST
+    rows += props.run_generic(ctx, "c17s", arityfam.fam_arity_raw(tier), "snX", lambda rec, job, obs, gram: [], emit="dv", with_pest=False, ast="src")
     for rec, job, obs, gram in rows:
         if "panic" in obs and "t" not in obs:
             ctx.violation("accessor code panicked on %s rule %s input %r|%r|%r: %s" % (gram["id"], job["rule"], uncps(job["pre"]), uncps(job["inp"]), uncps(job["post"]), obs["panic"][:120]),
@@ -886,16 +902,19 @@ def check_C18(tier, seed):
     text = "\n".join(['WHITESPACE = { " " }', "w = { 'a'..'c' ~ \"!\"? }", "s = _{ 'a'..'c' ~ \"!\" }", 'o = { (&"ab")? ~ "a" }', "l = { w ~ w* }",
                       'c = ${ ("ab" | "a") ~ ^"B"? }', "p = { PUSH('a'..'b') ~ PEEK }", "n = !{ s ~ s? }",
                       # same rule, same span, different content: what lies behind the end of the sub-range decides an optional part
-                      "e = { 'a'..'c' ~ EOI? }"])
+                      "e = { 'a'..'c' ~ EOI? }",
+                      # ... or how many iterations a peeked / a silent rule's repetition has
+                      "k = { &(\"a\"*) ~ 'a'..'c' }", "m = _{ 'a'..'c'* }"])
     full = "a! b!ab a!aBaa b! a!"
-    rules = ["w", "s", "o", "l", "c", "p", "n", "e"]
+    rules = ["w", "s", "o", "l", "c", "p", "n", "e", "k", "m"]
     g = dict(id="hi0", text=text, alphabet=[], maxlen=0, inputs=[cps(full)], entries=rules)
     path, corpus = peg.make_corpus([g], "c18")
     # pool of (rule, sub-range): same text at different places, same start with different ends, overlapping ranges
     L = len(full)
     pool = []
     rnd = random.Random(seed)
-    ranges = [(0, 2), (9, 11), (18, 20), (0, L), (0, 5), (3, 5), (3, L), (5, 7), (5, 6), (11, 13), (11, 14), (13, 15), (13, 14), (15, 19), (0, 1), (9, 10), (5, 9), (2, 5), (1, 5)]
+    ranges = [(0, 2), (9, 11), (18, 20), (0, L), (0, 5), (3, 5), (3, L), (5, 7), (5, 6), (11, 13), (11, 14), (13, 15), (13, 14), (15, 19), (0, 1), (9, 10), (5, 9), (2, 5), (1, 5),
+              (12, 13), (12, 14), (12, 15), (12, 12)]
     for r in rules:
         for (lo, hi) in ranges:
             pool.append({"g": 1, "rule": r, "lo": lo, "hi": hi})
@@ -913,11 +932,12 @@ def check_C18(tier, seed):
     tot_hist = 0
     for rd in range(rounds):
         # two rules per pool, several sub-ranges each, so that results of the same type meet in most histories
-        pairs = [("o", "e"), ("w", "s"), ("o", "l"), ("c", "p"), ("n", "s"), ("s", "o"), ("l", "w"), ("p", "n"), ("c", "o"), ("e", "w")]
+        pairs = [("o", "e"), ("k", "m"), ("w", "s"), ("o", "l"), ("c", "p"), ("n", "s"), ("s", "o"), ("l", "w"), ("p", "n"), ("c", "o"), ("e", "w")]
         ra, rb = pairs[rd % len(pairs)]
         must0 = [(0, 2), (0, 5), (0, L), (3, 5), (3, L), (9, 11)] if tier == "quick" else [(0, 2), (0, 5), (0, L), (3, 5), (9, 11)]
         # ranges on which these rules give the same span with different content (and the same content from different ranges)
-        special = {"o": [(5, 6), (5, 7), (5, 9), (0, 2), (3, 5)], "e": [(0, 1), (0, 2), (0, 5), (9, 10), (9, 11)]}
+        special = {"o": [(5, 6), (5, 7), (5, 9), (0, 2), (3, 5)], "e": [(0, 1), (0, 2), (0, 5), (9, 10), (9, 11)],
+                   "k": [(12, 13), (12, 14), (12, 15), (0, 2), (5, 7)], "m": [(12, 13), (12, 14), (12, 15), (12, 12), (5, 7), (5, 6)]}
         sub = []
         for r in (ra, rb):
             must = special.get(r, must0)
@@ -1013,6 +1033,14 @@ def fam_opt(tier):
         't1 = { "a" ~ t2? }', 't2 = ${ "b" ~ (&t3 ~ "(")? }', 't3 = { "(" ~ t1? ~ ")" }', 'u1 = ${ "a" ~ (u2 | "b") }', 'u2 = ${ "(" ~ PUSH(u1) ~ ")" ~ POP }']),
         alphabet=cps("ab()[]<>"), maxlen=3, inputs=[cps(x) for x in ["ab", "abab", "bab", "[<[]>]", "<[<>]>", "[<>]", "(a(b)a)", "(b)", "a(b)a", "abab", "abbb", "babb", "ab(", "ab(a)", "ab(ab(a))",
                                                                          "a(ab)ab", "a(a(ab)ab)a(ab)ab"]]))
+    # non-silent WHITESPACE / COMMENT tokens between the iterations of counted repetitions, and counted repetitions of a rule that can
+    # match empty: on the raw-AST path these are RepeatMinMax nodes (pair tree, iteration count)
+    g.append(dict(id="op9", text="\n".join(['WHITESPACE = { " " }', 'COMMENT = @{ "#" ~ (!"#" ~ ANY)* ~ "#" }', "item = { 'a'..'c' }", "num = { '0'..'1'* }", 'exact = { item{3} }',
+                                             'most = { item{,3} }', 'betw = { item{2,3} ~ "!"? }', 'nums = { num{3} }', 'numm = { num{,2} ~ "!" }', 'least = { item{2,} }',
+                                             'both = ${ (num ~ ","){2} ~ item{1,2} }']),
+                  alphabet=cps("a1 #!"), maxlen=3 if tier == "quick" else 4,
+                  inputs=[cps(x) for x in ["a #x# b #y#c", "a b c", "a#x#b", "a b", "a b c a", "abc", "ab !", "a #c# b!", "12", "1 0 1", "10 1", "", "!", "1 !", "1#c#0!", "a a a a", "1,,a", "1,0,ab", ",,a b",
+                                           "1 ,0, a"]]))
     import re
     for x in g:      # the skip rules themselves as entry rules are C01's known finding, not an option effect
         x["entries"] = [n for n in re.findall(r"(?m)^(\w+)\s*=", x["text"]) if n not in ("WHITESPACE", "COMMENT")]
